@@ -29,6 +29,10 @@ type VueContext struct {
 	// v-once element tracking for deep clones
 	seen map[string]bool
 
+	// fromFile is set when the nodes of the render are the parsed content of the file
+	// FromFilename (and not a string or node list rendered under that name).
+	fromFile bool
+
 	// SlotScope contains slot content for the current component.
 	SlotScope *SlotScope
 
